@@ -232,7 +232,8 @@ func (c *IPClient) measureClockOffsetIP(ctx context.Context, mtrcs *ipClientMetr
 		buf = buf[:n]
 		mtrcs.pktsReceived.Inc()
 
-		if compareAddrs(srcAddr.Addr(), remoteAddr.AddrPort().Addr()) != 0 {
+		if compareAddrs(srcAddr.Addr(), remoteAddr.AddrPort().Addr()) != 0 ||
+			srcAddr.Port() != remoteAddr.AddrPort().Port() {
 			err = errUnexpectedPacketSource
 			if numRetries != maxNumRetries && deadlineIsSet && timebase.Now().Before(deadline) {
 				c.Log.LogAttrs(ctx, slog.LevelInfo, "received packet from unexpected source")
